@@ -276,6 +276,46 @@ def judge_unit_history(path_a, canon_a, unit, path_b, order):
     return out
 
 
+ENVS = [
+    {"LC_ALL": "C", "LANG": "C", "PYTHONUTF8": "0", "PYTHONCOERCECLOCALE": "0"},
+    {"LC_ALL": "POSIX", "LANG": "POSIX", "PYTHONUTF8": "0", "PYTHONCOERCECLOCALE": "0"},
+    {"LC_ALL": "C.UTF-8", "LANG": "C.UTF-8"},
+    {"LC_ALL": "C", "PYTHONUTF8": "1"},
+    {"LC_ALL": "C", "LANG": "C", "PYTHONUTF8": "0", "PYTHONCOERCECLOCALE": "0", "PYTHONIOENCODING": "latin-1"},
+]
+
+ENV_CODE = """
+import json, os, sys, tempfile
+sys.path.insert(0, %r)
+from nssmc.checks import c15
+tmp = tempfile.mkdtemp()
+bad = []
+for fld in ("title", "detector.name"):
+    for k, sv in enumerate(c15.STRS):
+        v = c15.judge_roundtrip("monospectrum", "no_cloud", [(fld, sv)], tmp)
+        if v:
+            bad.append([fld, k, v[0][0], str(v[0][2])[:120]])
+print("ENVRESULT:" + json.dumps(bad))
+"""
+
+
+def judge_env(i):
+    """the TOML round trip of the string alphabet in an interpreter started under environment i (locale / default text
+    encoding): a configuration file is UTF-8 whatever the terminal's locale says"""
+    import json
+    import subprocess
+    import sys
+
+    root = os.path.dirname(os.path.dirname(os.path.dirname(os.path.abspath(__file__))))
+    env = {k: v for k, v in os.environ.items() if k not in ("LC_ALL", "LANG", "LC_CTYPE", "PYTHONUTF8", "PYTHONCOERCECLOCALE", "PYTHONIOENCODING")}
+    env.update(ENVS[i])
+    r = subprocess.run([sys.executable, "-c", ENV_CODE % root], capture_output=True, text=True, env=env, encoding="utf-8", errors="replace")
+    for line in r.stdout.splitlines():
+        if line.startswith("ENVRESULT:"):
+            return [("roundtrip_independent_of_locale", f"{fld}={STRS[k]!r} survives under {ENVS[i]}", f"{c}: {o}") for fld, k, c, o in json.loads(line[10:])][:3]
+    return [("roundtrip_independent_of_locale", f"the round trip runs under {ENVS[i]}", (r.stderr or r.stdout)[-200:])]
+
+
 def judge_numeric_string(path):
     cls, leaf = model_for(path)
     extra = {"high_frequency": 1e300} if leaf == "low_frequency" else ({"low_frequency": -1e300} if leaf == "high_frequency" else {})
@@ -481,6 +521,13 @@ def run(ctx):
                                 ctx.violation(c, {"kind": "unit_hist", "a": p, "canon": canon, "unit": unit, "b": paths_b[0], "order": order}, e, o)
         ctx.cov["unit_string_reuse_histories"] = n_h
         ctx.sample({"kind": "unit", "path": "detector.initial_position.latitude", "arg": "0.3333333333333333 arcmin"})
+        import concurrent.futures as _cf
+
+        with _cf.ThreadPoolExecutor(len(ENVS)) as ex:
+            for i, v in enumerate(ex.map(judge_env, range(len(ENVS)))):
+                ctx.tick(2 * len(STRS), ("env", i))
+                for c, e, o in v:
+                    ctx.violation(c, {"kind": "env", "i": i}, e, o)
         for i in range(len(BANDS)):
             ctx.tick(1, ("band", i))
             for c, e, o in judge_band(i):
@@ -526,6 +573,8 @@ def replay(case):
         return judge_numeric_string(case["path"])
     if k == "band":
         return judge_band(case["i"])
+    if k == "env":
+        return judge_env(case["i"])
     if k == "month":
         return judge_month(case["val"], case["expect"])
     return []
